@@ -71,6 +71,7 @@ def correspondence(ctx, violations, known_hits):
     profiles = ("debug",)
     r = dbgcommon.run_dbg_cases(ctx, cases, tags, violations, profiles, aux=AUX,
                                 note="model: the status machine advances the reference machine by exactly the promised instructions (C10 theorems)")
+    real = dbgcommon.cli_cross(ctx, specs, violations, limit=(30 if ctx.tier == "quick" else 600))
     ctx.cleanup()
     return dbgcommon.coverage(r,
         "EXHAUSTIVE command sequences up to length 2 (thorough: 3) over {step, step out, continue, step into k (k in 0,1,2,3,7,100), "
@@ -79,7 +80,7 @@ def correspondence(ctx, violations, known_hits):
         "exceptions), with and without the stack feature; every resuming command issued after `step into k` for EVERY k up to 40 "
         "(thorough 80), i.e. at every point of each program's run; plus random longer scripts incl. reset; compared: the paused machine "
         "(registers, PC, CC, memory, output), instructions executed, breakpoints, debugger output", profiles,
-        exhaustive=True, exhaustive_over="command sequences up to the stated length over the stated alphabet")
+        exhaustive=True, exhaustive_over="command sequences up to the stated length over the stated alphabet", real_binary_without_hooks=real)
 
 
 def replay(ctx, payload):
